@@ -1090,6 +1090,12 @@ M('C18', 'checkpoint payload: local renamed (equivalent)', SIM,
   "        results = self.results.copy()\n        if len(self.errors_during_run) > 0:\n            results['errors_during_run'] = self.errors_during_run\n        results['simulation_parameters'] = dict(self.options.as_dict())",
   None, expect='silent')
 
+M('C01', 'tensordot labels sliced with [:-axes] (round-4 seed a)', NPC,
+  "_drop_duplicate_labels(a._labels[: a.rank - axes], b._labels[axes:])", "_drop_duplicate_labels(a._labels[:-axes], b._labels[axes:])",
+  'SLICE-neg-zero')
+M('C04', 'python _tensordot_transpose_axes compares shapes also for axes == 0 (original defect)', NPC,
+  "    elif axes > 0 and a.shape[-axes:] != b.shape[:axes]:", "    elif a.shape[-axes:] != b.shape[:axes]:", 'PAIR-raise-guards')
+
 # ---------------------------------------------------------------- C16 / C19
 M('C16', 'GMRES restart: relative residual norm used for normalisation (round-3 seed b)', KRY,
   """        self.total_error.append([npc.norm(self.rs[-1]) / self.b_norm])
